@@ -140,6 +140,38 @@ def signatures(fn, modglobals):
     return params, table
 
 
+def shapes(fn, modglobals):
+    """{local: sorted list of depth-0 statement shapes}: every statement mentioning the local, the local itself
+    written __ME__ and every other local written L.  Used for similarity matching when exact signatures differ
+    because a neighbouring statement was edited."""
+    params, local = function_locals(fn, modglobals)
+    out = {}
+    for n in sorted(local):
+        parts = []
+        table = {m: "" for m in local}
+        for m in _stmts_mentioning(fn, n):
+            tag, node = ("", m)
+            if isinstance(m, tuple):
+                tag, node = m
+            t = _Sub(table, n).visit(_copy(node))
+            ast.fix_missing_locations(t)
+            try:
+                parts.append(tag + ":" + ast.unparse(t))
+            except Exception:
+                parts.append(tag + ":" + ast.dump(t))
+        out[n] = sorted(parts)
+    return out
+
+
+def _similarity(a, b):
+    """multiset Jaccard of two shape lists"""
+    from collections import Counter
+    ca, cb = Counter(a), Counter(b)
+    inter = sum((ca & cb).values())
+    union = sum((ca | cb).values())
+    return inter / union if union else 0.0
+
+
 def _copy(node):
     import copy
     return copy.deepcopy(node)
@@ -177,7 +209,8 @@ def reference_for(tree):
     out = {}
     for q, fn in functions_of(tree):
         params, sig = signatures(fn, g)
-        out[q] = {"params": params, "locals": sig, "order": first_occurrence_order(fn, sig)}
+        out[q] = {"params": params, "locals": sig, "order": first_occurrence_order(fn, sig),
+                  "shapes": shapes(fn, g)}
     return out
 
 
@@ -275,6 +308,26 @@ def normalise(relpath, tree):
                 rs = sorted(refs, key=ref_order.index)
                 for a, b in zip(cs, rs):
                     mapping[a] = b
+        # similarity matching for what exact signatures left over (any consistent renaming of a local to a name
+        # the function does not use is behaviour-preserving; the match quality only affects recognition)
+        left_cur = [n for n in cur_only if n not in mapping]
+        left_ref = [n for n in ref_only if n not in mapping.values()]
+        if left_cur and left_ref and r.get("shapes"):
+            cshape = shapes(fn, g)
+            scored = []
+            for a in left_cur:
+                for b in left_ref:
+                    sc = _similarity(cshape.get(a, []), r["shapes"].get(b, []))
+                    if sc >= 0.3:
+                        scored.append((sc, -abs(cur_order.index(a) - ref_order.index(b)) if b in ref_order else 0, a, b))
+            scored.sort(reverse=True)
+            used_a, used_b = set(), set()
+            for sc, _, a, b in scored:
+                if a in used_a or b in used_b:
+                    continue
+                used_a.add(a)
+                used_b.add(b)
+                mapping[a] = b
         if mapping:
             _Rename(mapping).visit(fn)
             for a, b in mapping.items():
